@@ -490,6 +490,20 @@ var c10Watchdog = 60 * time.Second
 func wharfSite(stack string) string {
 	lines := strings.Split(stack, "\n")
 	seenPanic := false
+	if root := os.Getenv("VERIF_REPO_PATH"); root != "" {
+		// the tree under test (a scratch worktree when a changed tree is checked)
+		for _, ln := range lines {
+			t := strings.TrimSpace(ln)
+			if strings.HasPrefix(t, "panic(") {
+				seenPanic = true
+				continue
+			}
+			if seenPanic && strings.HasPrefix(t, root+"/") && strings.Contains(t, ".go:") {
+				return strings.TrimPrefix(strings.Fields(t)[0], root+"/")
+			}
+		}
+		seenPanic = false
+	}
 	for _, ln := range lines {
 		t := strings.TrimSpace(ln)
 		if strings.HasPrefix(t, "panic(") {
